@@ -57,6 +57,11 @@ def query(c, t):
     if k == "q.morphs":
         m = sorted(legs_text(m.get_legs()) for m in c.get_class().get_morphs())
         return ";".join(m) if m else "-"
+    if k == "q.gen":
+        import itertools as _it
+        for _g in _it.islice(c.gen_generators(), 4):
+            pass
+        return "advanced"
     if k == "q.isin": return "T" if c.is_in(mk(strs(t[1]))) else "F"
     if k == "q.seldep":
         r = c.select_dependents(mk(strs(t[1])))
